@@ -44,3 +44,56 @@ def tracker(pid, n_quick=160, n_thorough=3000):
 
 for _p in ("C01", "C02", "C04", "C09", "C16"):
     tracker(_p)
+
+SSHD_ASSUME = [
+    "bytes, not runes: every class of the generated regexes contains all or no non-ASCII runes (go2v refuses others), so byte-level matching equals Go's rune-level matching",
+    "the model's matcher is the backtracking leftmost-first matcher; that RE2 returns the same match for these flat patterns is assumed and exercised by the correspondence",
+    "lines longer than 160 bytes are judged by the oracle only (the model's matcher is polynomial, Go's linear)",
+    "data values in which json.Marshal replaced invalid UTF-8 are not compared byte for byte",
+    "select with both arms ready is not generated: the hand-off is either taken (reader ready, ctx live) or cancelled (ctx cancelled, no reader)",
+]
+SSHD_MODELLED = ["processors/sshd handlers (capture-to-field mapping, placeholders, metric calls inside handlers, write + hand-off); regexes and dispatch switch are generated"]
+
+
+def sshd(pid, n_quick=360, n_thorough=6000):
+    reg(Spec(
+        pid, "Props/%s.v" % pid, harness="sshd",
+        args_quick=["-prop", pid, "-n", str(n_quick)],
+        args_thorough=["-prop", pid, "-n", str(n_thorough)],
+        args_search=["-prop", pid, "-n", "3000"],
+        assumptions=SSHD_ASSUME, modelled=SSHD_MODELLED,
+        extra_targets=["Model/SshdCheck.vo"],
+    ))
+
+
+for _p in ("C17", "C11", "C19"):
+    sshd(_p)
+
+
+DIRREADER_OVERLAY = {"processors/auditd/dirreader/verif_export.go": "harness/overlay/dirreader_verif.go"}
+reg(Spec(
+    "C20", "Props/C20.v", harness="dirreader", overlay=DIRREADER_OVERLAY,
+    args_quick=["-n", "200"],
+    args_thorough=["-n", "3000"],
+    args_search=["-n", "2000"],
+    assumptions=[
+        "files are byte lists on an in-memory file system behind the package's own fileSystem/fsWatcher seams; each fsnotify event carries one op bit and is processed before the next change (enforced by a barrier event)",
+        "no file-system errors (the backoff/retry path is not modelled); no events during start-up; truncation is to length 0",
+        "names: audit.log, audit.log.<n> (n unbounded), others filtered; names with a non-decimal suffix and leading-zero duplicates are not modelled",
+    ],
+    modelled=["processors/auditd/dirreader/dirreader.go (sortLogNamesOldToNew, loopWithError, rotatingFile.read, readFilePathLines, readLines)"],
+    extra_targets=["Model/DirReaderCheck.vo"],
+))
+
+reg(Spec(
+    "C12", "Props/C12.v", harness="pipes",
+    args_quick=["-n", "150"], args_thorough=["-n", "2000"], args_search=["-n", "1000"],
+    assumptions=[
+        "bufio.Reader.ReadString is library code: its contract (bytes up to and including the first delimiter; at end of stream the remaining bytes with io.EOF) is stated as read_string and exercised through a real FIFO, not proved",
+        "the chunks of the model are the pieces in which bytes arrive at the reader; C12_chunk_independent makes the outcome independent of them, so the writer's partition can stand in for the kernel's/bufio's read partition",
+        "the callback's verdict is a function of (call index, record); the identity of its error is abstracted to the index of the failing call (harness: the returned error must be == the sentinel)",
+        "context cancellation and open(2) failures of Ingest are outside C12 (see C13)",
+    ],
+    modelled=["ingesters/namedpipe/namedpipeingester.go (Ingest loop)", "ingesters/syslog/syslogingester.go (ParseSyslogMessage)"],
+    extra_targets=["Model/FramingCheck.vo", "Model/SyslogCheck.vo"],
+))
